@@ -5,6 +5,7 @@ very definitions the theorems are about.
 -/
 import JPV.Wire
 import JPV.Spec.Semantics
+import JPV.Impl.Parse
 namespace JPV.Driver
 open JPV.Wire
 
@@ -92,6 +93,21 @@ def encObj : Impl.Obj → String
 def encStream (s : Impl.Stream) : String :=
   "stream\t" ++ encNodes s.1 ++ "\t" ++ (match s.2 with | none => "end" | some e => "err " ++ encErr e)
 
+def tokKindName : Impl.TokKind → String
+  | .eof => "EOF" | .error => "ERROR" | .init => "INIT" | .colon => "COLON" | .comma => "COMMA"
+  | .doubleDot => "DOUBLE_DOT" | .filter => "FILTER" | .index => "INDEX" | .lbracket => "LBRACKET"
+  | .property => "PROPERTY" | .rbracket => "RBRACKET" | .root => "ROOT" | .wild => "WILD"
+  | .and => "AND" | .current => "CURRENT" | .dqString => "DOUBLE_QUOTE_STRING" | .eq => "EQ"
+  | .false_ => "FALSE" | .float => "FLOAT" | .function => "FUNCTION" | .ge => "GE" | .gt => "GT"
+  | .int => "INT" | .le => "LE" | .lparen => "LPAREN" | .lt => "LT" | .ne => "NE" | .not => "NOT"
+  | .null => "NULL" | .or => "OR" | .rparen => "RPAREN" | .sqString => "SINGLE_QUOTE_STRING"
+  | .true_ => "TRUE"
+
+def encTok (t : Impl.Token) : String := s!"{tokKindName t.kind}:{t.index}:{encStr t.value}"
+
+def encCompileErr (e : Impl.Err) : String :=
+  "err " ++ encErr e.kind ++ " " ++ (match e.offset with | some o => toString o | none => "none")
+
 def handle (fields : List String) : String :=
   match fields with
   | ["iter", env, q, doc] =>
@@ -120,6 +136,39 @@ def handle (fields : List String) : String :=
           | none => "ValueError"
           | some (s, e, st) => s!"{s} {e} {st}\t" ++ " ".intercalate ((Py.range s e st).map toString)
       | _, _, _, _ => "bad-request"
+  | ["lex", q] =>
+      match decStr q with
+      | some s =>
+        match Impl.tokenize s with
+        | .ok toks => "tokens\t" ++ " ".intercalate (toks.map encTok)
+        | .error e => encCompileErr e
+      | none => "bad-request"
+  | ["compile", env, q] =>
+      match (readSexp env).bind decEnv, decStr q with
+      | some e, some s =>
+        match Impl.compile e.toImpl s with
+        | .ok ast => "ok\t" ++ encQuery ast
+        | .error err => encCompileErr err
+      | _, _ => "bad-request"
+  | ["position", q, off] =>
+      match decStr q, off.toNat? with
+      | some s, some o => let p := Impl.position s o; s!"{p.1} {p.2}"
+      | _, _ => "bad-request"
+  | ["decode", kind, v] =>
+      match decStr v with
+      | some s =>
+        match Impl.decodeStringLiteral (if kind = "sq" then .sqString else .dqString) s with
+        | .ok r => "ok\t" ++ encStr r
+        | .error .syntax => "err JSONPathSyntaxError"
+        | .error .indexError => "err PY:IndexError"
+      | none => "bad-request"
+  | ["py.float", t] =>
+      match decStr t with
+      | some s =>
+        match Py.floatOfText s with
+        | some x => s!"{x.n}/{x.d}"
+        | none => "ValueError"
+      | none => "bad-request"
   | ["echo.json", doc] =>
       match decJsonAll doc with
       | some d => encJson d
